@@ -678,6 +678,7 @@ Record result := mkResult {
   o_iter : bool;               (* the application call returned an iterable *)
   o_writes1 : list witem;      (* what the first task wrote *)
   o_wrote_header1 : bool;      (* wrote_header of the first task *)
+  o_task1 : task;              (* final state of the first task *)
 }.
 
 (* HTTPChannel.service after the first task.service() returned or raised:
@@ -691,7 +692,7 @@ Definition ladder (c : cfg) (r : req) (disc : option nat) (x : exec_result) (raw
     let nexting := match esc with None => negb (t_cof (fst s)) | Some _ => false end in
     mkResult (rev (ch_writes (snd s))) closing nexting (x_closes x) (x_handover x) esc
              (t_wrote_header (fst s)) served (ch_nws ch) raw
-             (x_iter x) (rev (ch_writes ch)) (t_wrote_header t) in
+             (x_iter x) (rev (ch_writes ch)) (t_wrote_header t) t in
   match x_out x with
   | Ok _ => fin (x_st x) None false
   | Exn e =>
